@@ -106,6 +106,10 @@ def t_pow2(eng, st, e):
             z3.Implies(e == 32, p == 2 ** 32), z3.Implies(e == 64, p == 2 ** 64))
   # relate to previously used exponents on this path (monotonicity, additive law for equal terms)
   used = st.__dict__.setdefault("pow2_terms", [])
+  if st.nofresh:
+    # exponent under a binder (quantified clause): only the basic axioms above are closed over the bound variable;
+    # pairwise monotonicity instances would each become one more quantified hypothesis
+    return p
   for o in used[-12:]:
     if o.eq(e):
       continue
@@ -285,6 +289,29 @@ def _bind_eval(eng, st, names, body_node):
   return vs, body, axioms
 
 
+_CANON = [z3.Int(f"canon!{i}") for i in range(4)]
+
+
+def _assume_closed(st, vs, ax):
+  """Assumes ForAll(vs, ax) unless an alpha-equivalent closed axiom is already among the hypotheses of this path
+  (clauses with binders are evaluated several times: entry, assumption at the cut, preservation)."""
+  if isinstance(ax, bool):
+    if not ax:
+      st.assume(False)
+    return
+  if len(vs) <= len(_CANON):
+    key = z3.substitute(ax, *[(v, c) for v, c in zip(vs, _CANON)]).get_id()
+    seen = st.__dict__.setdefault("closed_axioms", {})
+    # the set must shrink with the path condition (hint scopes, by() truncate st.pc): remember the pc length
+    if key in seen and seen[key] < len(st.pc) and st.pc[seen[key]] is not None and st.pc[seen[key]].get_id() == seen.get(("id", key)):
+      return
+    st.assume(z3.ForAll(vs, ax))
+    seen[key] = len(st.pc) - 1
+    seen[("id", key)] = st.pc[-1].get_id()
+    return
+  st.assume(z3.ForAll(vs, ax))
+
+
 def spec_call(eng, st, node):
   name = node.func.id
   if name in ("forall", "exists"):
@@ -310,7 +337,7 @@ def spec_call(eng, st, node):
       v = vs[0]
       rng = z3.And(to_z3(lo) <= v, v < to_z3(hi))
       for ax in axioms:
-        st.assume(z3.ForAll(vs, ax))
+        _assume_closed(st, vs, ax)
       body = body if not isinstance(body, bool) else z3.BoolVal(body)
       if name == "forall":
         return z3.ForAll(vs, z3.Implies(rng, body))
@@ -334,7 +361,7 @@ def spec_call(eng, st, node):
       axioms = st.pc[n0:]
       del st.pc[n0:]
       for ax in axioms:
-        st.assume(z3.ForAll(vs, ax))
+        _assume_closed(st, vs, ax)
       cond = cond if not isinstance(cond, bool) else z3.BoolVal(cond)
       body = body if not isinstance(body, bool) else z3.BoolVal(body)
       if name == "forall":
@@ -615,6 +642,28 @@ def _s_div_lt(eng, st, x, p, q):
   x, p, q = [to_z3(eng.need_int(st, v)) for v in (x, p, q)]
   eng.used_theories.add("p>0, x<p*q ==> x//p < q; p>0, x>=0 ==> x//p >= 0 (instantiated on request)")
   st.assume(z3.Implies(z3.And(p > 0, x < p * q), x / p < q), z3.Implies(z3.And(p > 0, x >= 0), x / p >= 0))
+  return True
+
+
+@specfn("lemma")
+def _s_lemma(eng, st, name, *args):
+  """Instance of a lemma declared with contracts.lemma (proved from the theory axioms on every run of every property
+  that uses it, see pyvc/lemmas.py): assumes hyps(args) ==> concl(args).  Always returns True."""
+  from . import contracts as C
+  from .engine import Frame
+  lem = C.LEMMAS.get(name)
+  if lem is None or len(args) != len(lem.vars):
+    raise_unsupported(f"lemma {name!r}: unknown or wrong number of arguments")
+  eng.used_theories.add(f"lemma:{name}")
+  env = {n: eng.need_int(st, a) for n, a in zip(lem.vars, args)}
+  fr = Frame(env, None, st.frame.module, fname="lemma:" + name)
+  st.frames.append(fr)
+  try:
+    hy = [eng.truthy(st, eng.ev(h.node, st)) for h in lem.hyps]
+    co = [eng.truthy(st, eng.ev(c.node, st)) for c in lem.concl]
+  finally:
+    st.frames.pop()
+  st.assume(eng.implies(eng.and_(*hy) if hy else True, eng.and_(*co)))
   return True
 
 
@@ -2439,6 +2488,8 @@ def int_from_bytes(eng, st, args, kwargs, node):
     return Opaque("int.from_bytes(" + b.why + ")")
   if isinstance(b, BytesV) and order == "big":
     return b.val
+  if isinstance(b, BytesV) and order == "little" and b.le is not None:
+    return b.le
   if isinstance(b, BytesV) and order == "little":
     eng.used_theories.add("bytes reversal: from_bytes(b,'little') is some value in [0, 256^len) (not related to 'big')")
     f = z3.Function("le_of_be", I, I, I)
@@ -2479,7 +2530,9 @@ def int_to_bytes(eng, st, x, args, kwargs, node):
   f = z3.Function("le_of_be", I, I, I)
   r = f(to_z3(length), to_z3(x))
   st.assume(r >= 0, r < to_z3(p))
-  return BytesV(length, r)
+  eng.used_theories.add("bytes, little-endian view: x.to_bytes(n,'little') has little-endian reading x; a slice [a:c] of "
+                        "it reads (x // 256^a) % 256^(c-a); from_bytes(.,'little') returns that reading")
+  return BytesV(length, r, le=x)
 
 
 def bytes_index(eng, st, b, idx, node, checked=False):
@@ -2501,7 +2554,10 @@ def bytes_slice(eng, st, b, lo, hi, step, node):
     hi_ = max(lo_, hi_)
     ln = hi_ - lo_
     val = eng.mod(st, eng.floordiv(st, b.val, 256 ** (n - hi_), node), 256 ** ln, node) if ln > 0 else 0
-    return BytesV(ln, val)
+    le = None
+    if b.le is not None:
+      le = eng.mod(st, eng.floordiv(st, b.le, 256 ** lo_, node), 256 ** ln, node) if ln > 0 else 0
+    return BytesV(ln, val, le)
   # symbolic: only the forms b[a:] and b[:a], b[a:c] with 0 <= a <= c <= len assumed via clamping
   nn = to_z3(n)
 
@@ -2516,7 +2572,10 @@ def bytes_slice(eng, st, b, lo, hi, step, node):
   hi_ = z3.If(hi_ < lo_, lo_, hi_)
   ln = hi_ - lo_
   val = eng.mod(st, eng.floordiv(st, b.val, t_pow2(eng, st, 8 * (nn - hi_)), node), t_pow2(eng, st, 8 * ln), node)
-  return BytesV(ln, val)
+  le = None
+  if b.le is not None:
+    le = eng.mod(st, eng.floordiv(st, b.le, t_pow2(eng, st, 8 * lo_), node), t_pow2(eng, st, 8 * ln), node)
+  return BytesV(ln, val, le)
 
 
 def bytes_concat(eng, st, a, b):
